@@ -49,7 +49,7 @@ def platform_replay(seed_dists=None):
 def main(tier):
     run = Run(PID, tier)
     jobs = []
-    sizes = (1, 2, 3, 4) if tier == 'quick' else (1, 2, 3, 4, 5, 6)
+    sizes = (1, 2, 3, 4) if tier == 'quick' else (1, 2, 3, 4, 5)        # 6 references did not finish within 40 min per list length
     for g in sizes:
         path = gen_c09.make(g)
         ths = [None] if g <= 3 else [[3, 1], [-1, 2]]
